@@ -76,6 +76,8 @@ pub enum Col {
     ArrAroundPrefix,
     /// arrays whose length crosses a length-field boundary (255/256) in the same column
     ArrLen256,
+    /// long arrays (254..260, 300, 511..513, 1024 bytes) sharing all but their last three bytes
+    ArrLong,
     /// content addresses: `packs` distinct pack ids, content ids below `maxid`
     Content { packs: u16, maxid: u32 },
     /// references: pattern over entry numbers
@@ -162,6 +164,7 @@ fn col_to_json(c: &Col) -> Value {
         Col::Arr { max, alpha } => json!({"arr": [max, alpha]}),
         Col::ArrAroundPrefix => json!("arr_prefix"),
         Col::ArrLen256 => json!("arr_len256"),
+        Col::ArrLong => json!("arr_long"),
         Col::Content { packs, maxid } => json!({"content": [packs, maxid]}),
         Col::Tree(b) => json!({"tree": b}),
         Col::RefPat(p) => json!({"ref": match p {
@@ -179,6 +182,7 @@ fn col_from_json(v: &Value) -> Col {
             "seq" => Col::Seq,
             "arr_prefix" => Col::ArrAroundPrefix,
             "arr_len256" => Col::ArrLen256,
+            "arr_long" => Col::ArrLong,
             _ => Col::Small,
         };
     }
@@ -439,6 +443,13 @@ pub fn expand(case: &DirCase, si: usize) -> Vec<EntryModel> {
                 (PKind::Array { .. }, Col::ArrLen256) => {
                     let len = *rng.pick(&[0usize, 1, 254, 255, 256, 257]);
                     Val::A(rng.bytes(len))
+                }
+                (PKind::Array { .. }, Col::ArrLong) => {
+                    let len = *rng.pick(&[254usize, 255, 256, 256, 257, 258, 259, 260, 300, 511, 512, 513, 1024]);
+                    let mut a: Vec<u8> = (0..len).map(|i| b'a' + (i % 7) as u8).collect();
+                    let tail = rng.bytes(3);
+                    a[len - 3..].copy_from_slice(&tail);
+                    Val::A(a)
                 }
                 (PKind::Array { .. }, Col::Seq) => Val::A(format!("k{e:07}").into_bytes()),
                 (PKind::Array { .. }, Col::Arr { max, alpha }) => {
